@@ -1272,7 +1272,7 @@ impl Model for TModel {
             Ev::EndBlock => {
                 let fork = self.fork_of(st);
                 let sudo = block_on(fork.get_sudo_address()).expect("sudo address");
-                let (resp, post_state) = with_worker_app(&self.storage, |app| {
+                let (resp, mut post_state) = with_worker_app(&self.storage, |app| {
                     let dummy = std::mem::replace(&mut app.state, Arc::new(fork));
                     let r = block_on(app.end_block(self.height, &sudo));
                     let post = Arc::try_unwrap(std::mem::replace(&mut app.state, dummy)).ok().expect("exclusive");
@@ -1296,6 +1296,32 @@ impl Model for TModel {
                 if let Some(v) = self.judge_end_block(&pre, &post, &resp.validator_updates, &post_state) {
                     if v.clause.starts_with(self.property) {
                         return Step::Violated(v);
+                    }
+                }
+                if self.property == "C14" {
+                    // the next (empty) block must not hand CometBFT anything again: end_block once
+                    // more on a fork of the post state
+                    let fork2 = post_state.fork();
+                    let sudo2 = block_on(fork2.get_sudo_address()).expect("sudo address");
+                    let again = with_worker_app(&self.storage, |app| {
+                        let dummy = std::mem::replace(&mut app.state, Arc::new(fork2));
+                        let r = block_on(app.end_block(self.height + 1, &sudo2));
+                        let _ = std::mem::replace(&mut app.state, dummy);
+                        r
+                    });
+                    match again {
+                        Ok(r2) if !r2.validator_updates.is_empty() => {
+                            return Step::Violated(self.viol(
+                                "C14",
+                                "updates-applicable",
+                                "validator updates of a block are returned again by the next block".into(),
+                                format!(
+                                    "an empty block after this one returns {:?} to CometBFT again",
+                                    r2.validator_updates.iter().map(|u| format!("{}:{}", report::hex(&u.pub_key.to_bytes()[..4]), u.power.value())).collect::<Vec<_>>()
+                                ),
+                            ));
+                        }
+                        _ => {}
                     }
                 }
                 Step::Next(Node {
